@@ -20,6 +20,8 @@ def build_suite(name, rng, n, tier, **kw):
         return suites.suite_gauss(rng, n)
     if name == "ops":
         return suites.suite_ops(rng, n, **kw)
+    if name == "ctor_helpers":
+        return suites.suite_ctor_helpers(rng, n, **kw)
     if name == "order":
         return suites.suite_order(rng, n, **kw)
     if name == "validate":
@@ -48,7 +50,7 @@ def nontrivial(c):
 
 # (suite, kwargs, projection, quick case count)
 PROPS = {
-    "C01": dict(corr=[("rate", {}, ALL, 4500)], monitor=True, mon_budget=6000,
+    "C01": dict(corr=[("rate", {}, ALL, 4500), ("ctor_helpers", {}, ALL, 900)], monitor=True, mon_budget=6000,
                 rule="rate calls generated over kind x parameters x shapes x (mu, sigma) clusters x weak orders x encodings x per-call options; non-trivial = has a tie, is unsorted, has a multi-player team or a per-call option; distinct by hash of the canonical call",
                 partial="agreement of the binary64 evaluation with the closed form to 1e-9 is decided by the monitor (a test), not by the theorem over R"),
     "C02": dict(corr=[("rate", {}, {"exc", "ids", "shape", "objects"}, 4500), ("ops", {}, ALL, 900)], monitor=True, mon_budget=4800,
@@ -103,10 +105,10 @@ PROPS = {
                 rule="five rating classes x six operators x pairs incl. equal ordinals with different (mu, sigma), zeros, negatives, foreign operands; all cases non-trivial",
                 partial=""),
     "C19": dict(corr=[("predict", {}, ALL, 1800), ("validate", {}, RATE_TRACE, 1800), ("ops", {}, ALL, 1800),
-                      ("rate", {"kinds": ("BTF", "BTP")}, ALL, 1200)], monitor=True, mon_budget=2000,
+                      ("rate", {"kinds": ("BTF", "BTP")}, ALL, 1200), ("ctor_helpers", {}, ALL, 900)], monitor=True, mon_budget=2000,
                 rule="every shared suite run against all five classes against ONE model function; cross-class monitor; signatures by reflection; non-trivial = as the respective suite",
                 partial="signatures are compared by reflection (inspect), not semantics"),
-    "C20": dict(corr=[("ops", {}, ALL, 2700), ("rate", {}, ALL, 1500)], monitor=True, mon_budget=1600,
+    "C20": dict(corr=[("ops", {}, ALL, 2700), ("rate", {}, ALL, 1500), ("ctor_helpers", {}, ALL, 600)], monitor=True, mon_budget=1600,
                 rule="constructor / create_rating / deepcopy cases and leagues with serialise-rebuild between games; non-trivial = all",
                 partial="uniqueness of uuid4 ids is an assumption on the standard library, monitored on 1e4-1e5 constructions"),
 }
@@ -147,10 +149,10 @@ _CONCERNS = {
     "C13": ("outcome", "rating objects written although", "attribute writes", "model attributes after call", "model __dict__"),
     "C14": ("attribute writes", "model attributes after call", "model __dict__"),
     "C18": ("cmp", "lt", "le", "gt", "ge", "eq", "ne", "ordinal", "outcome"),
-    "C20": ("crt", "mrating", "dcopy"),
+    "C20": ("crt", "mrating", "dcopy", "minit"),
     # every shared operation of every class is tied to ONE model function: a class that departs from it departs
     # from the other four (which agree with it), on the recorded input
-    "C19": ("cmp", "lt", "le", "gt", "ge", "eq", "ne", "ordinal", "crt", "mrating", "dcopy", "predict_", "length", "outcome"),
+    "C19": ("minit", "helpers", "cmp", "lt", "le", "gt", "ge", "eq", "ne", "ordinal", "crt", "mrating", "dcopy", "predict_", "length", "outcome"),
 }
 
 
